@@ -64,11 +64,11 @@ def strategies(run: Run, only: Dict[str, Any] | None = None) -> None:
     if only is not None:
         vecs = [only["vector"]]
     elif tier == "thorough":
-        # 3-check chains x 8 containers: a seeded third, every chain shape kept
+        # 3-check chains: a seeded tenth (every 1- and 2-check chain is kept)
         import random
 
         rng = random.Random(run.seed)
-        vecs = [v for v in vecs if v["kind"] == "strategy_str" or len(v["chain"]) < 3 or rng.random() < 0.34]
+        vecs = [v for v in vecs if v["kind"] == "strategy_str" or len(v["chain"]) < 3 or rng.random() < 0.10]
     tmp = tempfile.mkdtemp(prefix="vf-strategy-")
     known = known_ids("C13")
     try:
